@@ -43,7 +43,7 @@ func (p *Program) miniProgram(src string) (*Program, error) {
 		return nil, err
 	}
 	q := &Program{Fset: fset, Types: tpkg, Info: info, Files: []*ast.File{f}, Prog: spkg.Prog, SPkg: spkg,
-		Funcs: map[string]*ssa.Function{}, cells: map[*ssa.Alloc]*cellInfo{}, binds: map[*ssa.FreeVar]ssa.Value{}, GOOS: p.GOOS, GOARCH: p.GOARCH}
+		Funcs: map[string]*ssa.Function{}, cells: map[*ssa.Alloc]*cellInfo{}, binds: map[*ssa.FreeVar]ssa.Value{}, transp: map[*ssa.Function]bool{}, GOOS: p.GOOS, GOARCH: p.GOARCH}
 	var add func(fn *ssa.Function)
 	add = func(fn *ssa.Function) {
 		if fn == nil || fn.Blocks == nil {
@@ -67,6 +67,7 @@ func (p *Program) miniProgram(src string) (*Program, error) {
 			}
 		}
 	}
+	q.AllFuncs = q.FuncList
 	return q, nil
 }
 
@@ -77,7 +78,10 @@ func (r *Run) positiveExample(name, src string, count func(q *Program) int) {
 		r.Undecided("positive-example:"+name, token.NoPos, "cannot build the embedded positive example: "+err.Error())
 		return
 	}
+	saved := activeProg
+	activeProg = q
 	n := count(q)
+	activeProg = saved
 	if n > 0 {
 		r.OK("positive-example:"+name, token.NoPos, fmt.Sprintf("the matcher fires on the embedded positive example (%d matches)", n))
 	} else {
